@@ -62,7 +62,10 @@ var (
 	wrapNode    *Node
 )
 
-func New(n int) *Cluster {
+func New(n int) *Cluster { return NewOn(n, hutil.MemDB) }
+
+// NewOn builds the cluster over stores opened by openDB.
+func NewOn(n int, openDB func() *badger.DB) *Cluster {
 	c := &Cluster{Net: sim.NewNet()}
 	// every raft message leaving a node is compared with what that node's log store of the group has made durable
 	// (observed on the sender's ready-loop goroutine, before the message is handed to the network)
@@ -85,7 +88,7 @@ func New(n int) *Cluster {
 		}
 	}
 	for i := 0; i < n; i++ {
-		c.Nodes = append(c.Nodes, &Node{I: i, Id: NodeID(i), DB: hutil.MemDB(), Mons: map[uuid.UUID]*sim.MonWAL{}})
+		c.Nodes = append(c.Nodes, &Node{I: i, Id: NodeID(i), DB: openDB(), Mons: map[uuid.UUID]*sim.MonWAL{}})
 	}
 	return c
 }
